@@ -1,13 +1,194 @@
 import H2.Base
-/-! Line-protocol operations of the Hpack area (driver side). -/
+import H2.Hpack.Model
+import H2.Hpack.Spec
+/-! Line-protocol operations of the Hpack area (driver side); see `harness/hpack.go` for the formats. -/
 namespace H2.Hpack.Drv
+open H2 H2.Hpack
+
+structure DecCtx where
+  st : Block.State := {}
+  /-- Spec side of the `frame` operations: decoder state at the start of the current block, octets so far -/
+  specStart : DecState := {}
+  acc : Bytes := []
 
 structure State where
-  dummy : Nat := 0
+  decs : List (String × DecCtx) := []
+  encs : List (String × EncState) := []
+  refs : List (String × DecState) := []
 
 def State.init : State := {}
 
+def put {α} (l : List (String × α)) (k : String) (v : α) : List (String × α) :=
+  (k, v) :: l.filter (fun p => p.1 != k)
+
+def get? {α} (l : List (String × α)) (k : String) : Option α := (l.find? (fun p => p.1 == k)).map (·.2)
+
+def tblStr (t : List (Bytes × Bytes)) : String :=
+  if t.isEmpty then "-" else ",".intercalate (t.map fun e => toHex e.1 ++ ":" ++ toHex e.2)
+
+def b01 (b : Bool) : String := if b then "1" else "0"
+
+def fieldsStr (fs : List Field) : String :=
+  if fs.isEmpty then "-" else ",".intercalate (fs.map fun f => toHex f.name ++ ":" ++ toHex f.value ++ ":" ++ b01 f.sens)
+
+def kv (s key : String) : Option String :=
+  if s.startsWith (key ++ "=") then some ((s.drop (key.length + 1)).toString) else none
+
+def kvNat (s key : String) : Option Nat := (kv s key).bind String.toNat?
+
+def kindStr : Spec.Repr → String
+  | .indexed _ => "I"
+  | .literal .incremental _ _ _ => "L"
+  | .literal .without _ _ _ => "W"
+  | .literal .never _ _ _ => "N"
+  | .sizeUpdate n => "U" ++ toString n
+
+def kindsStr (rs : List Spec.Repr) : String :=
+  if rs.isEmpty then "-" else ",".intercalate (rs.map kindStr)
+
+def layoutStr (b : Bytes) : String :=
+  let (us, f) := Spec.layout b
+  ".".intercalate (us.map toString) ++ "/" ++ toString f
+
+def decResStr : DecRes → String
+  | .ok d (some f) rest =>
+    s!"ok name={hexOrDash f.name} value={hexOrDash f.value} sens={b01 f.sens} rest={rest.length} tbl={tblStr d.dyn} max={d.maxSize}"
+  | .ok d none rest => s!"none rest={rest.length} tbl={tblStr d.dyn} max={d.maxSize}"
+  | .needMore => "need-more"
+  | .err => "err"
+
+def decStep (st : State) (c : String) (args : List String) : State × String :=
+  match args with
+  | ["new"] => ({ st with decs := put st.decs c {} }, "ok")
+  | rest =>
+    match get? st.decs c with
+    | none => (st, "bad-op")
+    | some cx =>
+      match rest with
+      | ["limit", n] =>
+        match n.toNat? with
+        | none => (st, "bad-op")
+        | some n =>
+          let d := cx.st.dec.setLimit n
+          ({ st with decs := put st.decs c { cx with st := { cx.st with dec := d } } },
+            s!"ok tbl={tblStr d.dyn} max={d.maxSize} lim={d.limit}")
+      | ["field", bs, fp, _ks, h] =>
+        match kvNat bs "bs", kvNat fp "fp", fromHex h with
+        | some bs, some fp, some b =>
+          -- the RFC step is printed too when it differs (it cannot: C03.next_eq_step; this is what the
+          -- search uses when that theorem no longer checks, e.g. after a change of the static table)
+          let m := Dec.next cx.st.dec (bs == 1) fp b
+          let sp := Spec.step cx.st.dec (bs == 1) fp b
+          let line := decResStr m ++ (if sp == m then "" else " ;; spec=" ++ decResStr sp)
+          match m with
+          | .ok d _ _ => ({ st with decs := put st.decs c { cx with st := { cx.st with dec := d } } }, line)
+          | _ => ({ st with decs := put st.decs c {} }, line)
+        | _, _, _ => (st, "bad-op")
+      | ["frame", cont, eh, h] =>
+        match kvNat cont "cont", kvNat eh "eh", fromHex h with
+        | some cont, some eh, some b =>
+          -- Spec side: a HEADERS frame opens a block, decoded as a whole when END_HEADERS arrives
+          let (start, acc) := if cont == 0 then (cx.st.dec, b) else (cx.specStart, cx.acc ++ b)
+          let spec :=
+            if eh == 1 then
+              match Spec.decodeBlock start acc with
+              | some (d, fs) => s!"spec=ok fields={fieldsStr fs} tbl={tblStr d.dyn} max={d.maxSize} lay={layoutStr acc}"
+              | none => "spec=err"
+            else "spec=-"
+          match Block.feed cx.st (cont == 1) (eh == 1) b with
+          | .ok s fs =>
+            ({ st with decs := put st.decs c { st := s, specStart := start, acc := acc } },
+              s!"ok fields={fieldsStr fs} carry={s.prev.length} tbl={tblStr s.dec.dyn} max={s.dec.maxSize} ;; {spec}")
+          | .err fs =>
+            ({ st with decs := put st.decs c { st := {}, specStart := start, acc := acc } },
+              s!"err fields={fieldsStr fs} ;; {spec}")
+        | _, _, _ => (st, "bad-op")
+      | _ => (st, "bad-op")
+
+def encStep (st : State) (c : String) (args : List String) : State × String :=
+  match args with
+  | ["new", dc, dd] =>
+    match kvNat dc "dc", kvNat dd "dd" with
+    | some dc, some dd =>
+      ({ st with encs := put st.encs c { disableCompression := dc == 1, disableDynamic := dd == 1 } }, "ok")
+    | _, _ => (st, "bad-op")
+  | rest =>
+    match get? st.encs c with
+    | none => (st, "bad-op")
+    | some e =>
+      match rest with
+      | ["block"] => (st, "ok")
+      | ["setmax", n] =>
+        match n.toNat? with
+        | none => (st, "bad-op")
+        | some n =>
+          let e' := e.setMax n
+          ({ st with encs := put st.encs c e' }, s!"ok tbl={tblStr e'.dyn} max={e'.maxSize} pending={b01 e'.pending}")
+      | ["field", store, sens, _pre, n, v] =>
+        match kvNat store "store", kvNat sens "sens", fromHex n, fromHex v with
+        | some store, some sens, some n, some v =>
+          let (e', out) := Enc.append e ⟨n, v, sens == 1⟩ (store == 1)
+          ({ st with encs := put st.encs c e' },
+            s!"ok {hexOrDash out} tbl={tblStr e'.dyn} max={e'.maxSize} pending={b01 e'.pending}")
+        | _, _, _, _ => (st, "bad-op")
+      | _ => (st, "bad-op")
+
+/-- reference decoder: the Spec -/
+def refStep (st : State) (c : String) (args : List String) : State × String :=
+  match args with
+  | ["new"] => ({ st with refs := put st.refs c {} }, "ok")
+  | rest =>
+    match get? st.refs c with
+    | none => (st, "bad-op")
+    | some d =>
+      match rest with
+      | ["limit", n] =>
+        match n.toNat? with
+        | none => (st, "bad-op")
+        | some n => ({ st with refs := put st.refs c (Spec.setLimit d n) }, "ok")
+      | ["block", h] =>
+        match fromHex h with
+        | none => (st, "bad-op")
+        | some b =>
+          match Spec.decodeBlock d b with
+          | none => ({ st with refs := put st.refs c {} }, s!"err kinds={kindsStr ((Spec.parseAll b).getD [])}")
+          | some (d', fs) =>
+            ({ st with refs := put st.refs c d' },
+              s!"ok fields={fieldsStr fs} kinds={kindsStr ((Spec.parseAll b).getD [])} tbl={tblStr d'.dyn} max={d'.maxSize}")
+      | _ => (st, "bad-op")
+
+def intRes : IntRes → String
+  | .ok v r => s!"ok {v} rest={r.length}"
+  | .needMore => "need-more"
+  | .overflow => "err"
+
+def strRes : StrRes → String
+  | .ok s r => s!"ok {hexOrDash s} rest={r.length}"
+  | .needMore => "need-more"
+  | .err => "err"
+
 /-- `args` is the whole line split on spaces; `args.head!` is the operation name -/
-def step (st : State) (args : List String) : State × String := (st, "bad-op")
+def step (st : State) (args : List String) : State × String :=
+  match args with
+  | ["hpack.int.dec", n, h] =>
+    match n.toNat?, fromHex h with
+    | some n, some b => (st, intRes (readInt n b))
+    | _, _ => (st, "bad-op")
+  | ["hpack.int.enc", n, fl, v] =>
+    match n.toNat?, fl.toNat?, v.toNat? with
+    | some n, some fl, some v => (st, "ok " ++ hexOrDash (writeInt n fl v))
+    | _, _, _ => (st, "bad-op")
+  | ["hpack.str.dec", h] =>
+    match fromHex h with
+    | some b => (st, strRes (readString b))
+    | none => (st, "bad-op")
+  | ["hpack.str.enc", hf, _dst, h] =>
+    match fromHex h with
+    | some b => (st, "ok " ++ hexOrDash (writeString b (hf == "1")))
+    | none => (st, "bad-op")
+  | "hpack.dec" :: c :: rest => decStep st c rest
+  | "hpack.enc" :: c :: rest => encStep st c rest
+  | "hpack.ref" :: c :: rest => refStep st c rest
+  | _ => (st, "bad-op")
 
 end H2.Hpack.Drv
